@@ -19,7 +19,7 @@ def replay(pid, path):
     """rebuild the native harness from /repo's current tree and re-run the recorded counterexample inputs"""
     c = json.load(open(path))
     outdir = os.path.join(driver.OUT, pid + '-replay'); os.makedirs(outdir, exist_ok=True)
-    spec = props.P[pid]; job = [j for j in spec['jobs'] if j['name'] == c['job']][0]
+    spec = props.P[pid]; job = [j for j in spec['jobs'] if j['name'] == c['job'].split('@')[0]][0]
     exe, _ = driver.compile_native(c['tu'], c['defs'], outdir, bool(job.get('clock')))
     f = os.path.join(outdir, 'replay.in'); driver.write_inputs(f, [tuple(x) for x in c['inputs']])
     r = driver.run_native(exe, c['entry'], f)
